@@ -118,6 +118,10 @@ def closed_country(b, rng, m, code, T, opts):
     elif gold:
         h['gov'] = b.sector('GoldStandardGovernment', c, GOV, initial_gold=round(rng.uniform(5, 60), 1))
         govcode = GOV
+    elif opts.get('fin', False) and rng.random() < 0.25:
+        # a Treasury without a central bank: it issues the money itself (and declares a zero money demand of its own)
+        h['gov'] = b.sector('Treasury', c, GOV)
+        govcode = GOV
     else:
         h['gov'] = b.sector('ConsolidatedGovernment', c, GOV)
         govcode = GOV
@@ -484,6 +488,11 @@ def gen_program(seed, family=None, tight=True, T=None, on_grid=True, with_main=T
         first_sector = [i for i, o in enumerate(b.ops) if o['op'] in ('Household', 'HouseholdWithExpectations')]
         if first_sector:
             b.ops.insert(S['swarm'].randint(first_sector[0] + 1, len(b.ops)), {'op': 'LogInfo', 'model': m})
+    if S['swarm'].random() < 0.2:
+        # tax-exempt dividends: the program excludes the owners' dividend income itself (public configuration call)
+        caps = [o['id'] for o in b.ops if o['op'] == 'Capitalists']
+        if caps:
+            b.add({'op': 'Exclude', 'sector': caps[S['swarm'].randrange(len(caps))], 'name': 'DIV'})
     if S['swarm'].random() < 0.15:
         insert_queries(b.ops, S['swarm'], m)
     if S['swarm'].random() < 0.06:
